@@ -343,6 +343,9 @@ def r_stmt(s, ind, twin, ctx):
         return [f"{ind}assert {r_expr(s[1], twin)}"]
     if k in ("global", "nonlocal"):
         return [f"{ind}{k} {s[1]}"]
+    if k == "anntarget":
+        # a bare annotation on an attribute / subscript target: evaluates the object, stores nothing
+        return [f"{ind}{s[1]}: int"]
     if k == "declin":
         # a global / nonlocal declaration that sits inside a compound statement (always the first
         # statement of the function, so that no use of the name precedes it)
@@ -913,6 +916,8 @@ def functions(flags=None, want_gen=None):
                     return [("expr", ("comp", ("walrus", t[1], ("var", "cv_")), ("var", "xs")))]
                 return [("expr", ("E", ekey(), int_expr(bound, 1)))]
             if k == "ann":
+                if draw(st.integers(0, 5)) == 0:
+                    return [("anntarget", "o.x" if has_o and draw(st.booleans()) else "xs[0]")]
                 t = name_target()
                 ann = "int"
                 bound.add(t[1])
